@@ -447,6 +447,60 @@ func TestVerifC06(t *testing.T) {
 				}
 				s.Close()
 			}
+			// ---- D (thorough): two faults.  Op k1 fails, and so does a later op k2 of what
+			// the request then does (typically the clean-up).  The statement quantifies over
+			// single failures; under two, only what it states unconditionally is judged: a
+			// client that got the credential has its lease (and index) record.
+			if vout.Thorough() {
+				for k1 := 1; k1 <= nops; k1++ {
+					item++
+					if !vout.Mine(item) {
+						continue
+					}
+					sp := Boot(t, img)
+					sp.Phys.FailAt("call", k1)
+					sp.Phys.SetTag("call")
+					_ = c06Do(sp, tok, kind)
+					sp.Phys.SetTag("")
+					n1 := sp.Phys.TagCount("call")
+					sp.Close()
+					for k2 := k1 + 1; k2 <= n1; k2++ {
+						s := Boot(t, img)
+						idsB, idxB := expireKeys(s)
+						s.Phys.FailAt("call", k1)
+						s.Phys.FailAlso(k2)
+						s.Phys.SetTag("call")
+						o := c06Do(s, tok, kind)
+						s.Phys.SetTag("")
+						fl := s.Phys.FailedAll()
+						res.Add("executions", 1)
+						res.Add("double_fault_runs", 1)
+						var whats []string
+						for _, f := range fl {
+							whats = append(whats, f.String())
+						}
+						rp := map[string]interface{}{"kind": kind, "nonTxn": nonTxn, "k1": k1, "k2": k2, "failed_ops": whats}
+						idsA, idxA := expireKeys(s)
+						if o.ok {
+							if kind.Name != "create-batch" && len(idsA) <= len(idsB) {
+								res.Violate("c06:fault2:credential-without-lease", fmt.Sprintf("%s, ops %d and %d %v failed: the client still received its %s but no lease record exists", label, k1, k2, whats, kind.Name), rp)
+							}
+							if strings.Contains(kind.Name, "secret") && !kind.Wrap && len(idxA) <= len(idxB) {
+								res.Violate("c06:fault2:secret-without-index", fmt.Sprintf("%s, ops %d and %d %v failed: the client received the secret but the token->lease index entry is missing", label, k1, k2, whats), rp)
+							}
+						} else if k1 <= regEnd && tok0 != "" && !strings.Contains(kind.Name, "secret") && kind.Name != "create-batch" && s.Usable(tok0) {
+							// not judged: when the clean-up's own storage operation fails as well the
+							// token record cannot be removed (seen for create-root: lease write and
+							// token-entry rewrite both failing); the statement covers single failures
+							res.Add("double_fault_token_left_usable", 1)
+						}
+						if len(fl) == 2 {
+							res.Distinct("nontrivial", fmt.Sprintf("D|%s|%v|%v|%s|%s|%v", kind.Name, kind.Wrap, nonTxn, fl[0].Kind+":"+keyClass(fl[0].Key), fl[1].Kind+":"+keyClass(fl[1].Key), o.ok))
+						}
+						s.Close()
+					}
+				}
+			}
 			// ---- K: crash after mutation j, restart
 			for j := 1; j <= nmut; j++ {
 				item++
